@@ -6,7 +6,7 @@ from .. import dagsweep as D
 from .. import sweepprops as S
 
 LEVEL = 'proof'
-NEEDS = ['TopoSort', 'TopoSortProofs', 'SFTopo', 'SubGraph', 'SubGraphProofs', 'Extracted', 'SourceFacts', 'Bridge', 'BridgeProofs', 'Base', 'Digraph', 'DigraphProofs', 'Queries', 'QueriesProofs', 'CorrDag']
+NEEDS = ['CorrTopoSort', 'TopoSort', 'TopoSortProofs', 'SFTopo', 'SubGraph', 'SubGraphProofs', 'Extracted', 'SourceFacts', 'Bridge', 'BridgeProofs', 'Base', 'Digraph', 'DigraphProofs', 'Queries', 'QueriesProofs', 'CorrDag']
 
 
 def dpe_tokens(g, n):
@@ -19,6 +19,8 @@ def dpe_tokens(g, n):
 
 
 def check(run, tier, seed):
+    from .. import topocorr
+    topocorr.exact_default_order(run, 'C10', tier, seed)
     S.sweep_property(run, tier, seed, 'C10',
                      describe='ancestors / descendants / is_ancestor / is_descendant (single, list, set, empty forms) / common ancestors and '
                               'descendants / all causal paths / nodes between / directed_path_exists / all topological orders / the four '
